@@ -242,7 +242,9 @@ def analyse(res, known):
             else: viol.append(r)
         else:
             if r['m'] is not None and r['m'] != r['mexp']: ties.append(('model', r))
-            if r['g'] is not None and r['g'] != r['impl']: ties.append(('generated', r))
+            # `unsupported`: the translator emitted a stub for a function outside its subset — no comparison; whether a property is
+            # affected is decided by whether its theorems still check
+            if r['g'] is not None and r['g'] != 'unsupported' and r['g'] != r['impl']: ties.append(('generated', r))
     return viol, knownhits, ties
 
 
@@ -306,9 +308,16 @@ def main():
     broken = []        # names of ties that no longer check
     with Lock():
         ok, gen_msg = regenerate()
+        unsupported = {}
         if not ok:
             broken.append('translator gen/py2lean.py: ' + gen_msg[-300:])
             # keep the previously generated files so that the rest still builds, if it can
+        else:
+            try: unsupported = json.loads(gen_msg.strip().split('\n')[-1]).get('unsupported', {})
+            except Exception: unsupported = {}
+            if unsupported:
+                # stubs were generated for these; a property is affected iff one of its theorems no longer checks (below)
+                log(f'[{prop}] translator: outside the translated subset: ' + '; '.join(f'{k}: {v[:160]}' for k, v in unsupported.items()))
         driver_ok, proofs_ok, b, blog = build(prop)
         if not driver_ok:
             log(blog[-4000:]); raise C.MachineryFault('the driver does not build')
@@ -392,6 +401,7 @@ def main():
         'spec_comparisons': sum(1 for r in res if r['s'] is not None),
         'param_validation': pv,
         'broken_ties': broken,
+        'translator_unsupported': unsupported,
         'known_findings_hit': sorted(seen),
     })
     ev['assumptions'] = getattr(mod, 'ASSUMPTIONS', [])
